@@ -165,7 +165,7 @@ class _TableFormSection(object):
   `table_forms` property."""
 
   _section_name_prefix = "Table-Form"
-  _section_name_regex = re.compile("^{}:(.*)$".format(_section_name_prefix))
+  _section_name_regex = re.compile(r"^{}\s*:(.*)$".format(_section_name_prefix))
 
   def __init__(self, cfg_parser):
     self._cfg_parser = cfg_parser
@@ -319,6 +319,10 @@ class _RawConfigParser(configparser.RawConfigParser):
   def __init__(self):
     super(_RawConfigParser, self).__init__(dict_type = _ConfigParserDict, default_section = "Variables", interpolation = configparser.ExtendedInterpolation())
     self._sections = collections.OrderedDict()
+    # Section names are not normalised (only option keys are): with the key-normalising dictionary two sections whose
+    # names differ only in blanks ('Pair' / 'Pair ', 'Table-Form:tf' / 'Table-Form :tf') shared one section proxy
+    # and the later one silently stood in for the earlier.
+    self._proxies = collections.OrderedDict(self._proxies)
 
   # [Variables] is the parser's default section so that ${NAME} placeholders resolve in every section.
   # configparser also makes the keys of the default section appear as options of *every* section;
